@@ -27,7 +27,7 @@ CHECKS = {
          "Generated delivery histories interpreted against the implementation and an abstract position model in lock-step; the concrete counter (hook) is compared with the model after every step; every delivery kind x API x boundary position swept.",
          "Start positions >= 2^24 are reached through the verif_set_seq hook; buffer contents after OpenError are unconstrained (documented).",
          "DESIGN.md section 4 C05", "hv"),
- "C06": ("metamorphic property testing: exhaustive single-bit flips, truncations, extensions and cross-message substitutions of generated messages on all four opening interfaces",
+ "C06": ("metamorphic property testing: exhaustive single-bit flips, truncations, extensions and cross-message substitutions of generated messages on all four opening interfaces; long runs of consecutive rejected deliveries on one receiver",
          "Per generated message the whole variant family is enumerated (all bit positions for <=96-byte messages, all tag bits always, every truncation length) and each variant must be rejected with OpenError by open, open_in_place_detached and the two single-shot forms; ~1.8 million open attempts per quick run.",
          "Bit positions of long messages are sampled; most variants reuse one receiver repositioned through the hook, every 16th uses a fresh receiver.",
          "DESIGN.md section 4 C06", "hv"),
@@ -35,11 +35,11 @@ CHECKS = {
          "Generated baselines over 48 suites x 4 modes with single-component perturbations (bit flips, boundary shifts between adjacent fields, mode swaps with identical data, equal-size AEAD swap, same-DH different-bytes encapsulated keys); the perturbed receiver must open nothing and export different secrets; positive control first.",
          "'No shared key material' is observed through open failures and export inequality.",
          "DESIGN.md section 4 C07", "hv"),
- "C08": ("adversarial property testing: honest sender vs impostors (other pair, public half only, unauthenticated mode, wrong PSK) over 4 KEMs x {Auth, AuthPsk, Psk}",
+ "C08": ("adversarial property testing: honest sender vs impostors (other pair, public half only, unauthenticated mode, wrong PSK incl. a difference at the end of every PSK length, transcripts forged by the reference model without any sender private key) over 4 KEMs x {Auth, AuthPsk, Psk}",
          "Generated sessions with six impostor kinds including the public-half-only sender (a real API call, the pair is taken unchecked) and one-bit PSK differences; honest sender must be accepted, impostor contexts must share nothing with the receiver.",
          "Acceptance is observed through opens and export equality.",
          "DESIGN.md section 4 C08", "hv"),
- "C11": ("differential stateful property testing of export interleaved with seals/opens/failures vs reference LabeledExpand; exhaustive length sweeps around 255*Nh and 2^16",
+ "C11": ("differential stateful property testing of export interleaved with seals/opens/failures vs reference LabeledExpand; exhaustive length sweeps around 255*Nh and 2^16, every exporter-context length, searched all-zero export values",
          "Generated histories on both roles over 48 suites x 4 modes; every export equals the reference value, is repeatable, unaffected by traffic, Ok iff L <= 255*Nh; export-only seal/open must panic; thorough sweeps every L in 0..=66000 per KDF.",
          "Trusts sha2 and the reference key schedule (pinned by anchors and golden vectors).",
          "DESIGN.md section 4 C11", "hv"),
@@ -55,15 +55,15 @@ CHECKS = {
          "from_bytes must succeed iff the independent predicate holds (length, tag 0x04, x<p, y<p, curve equation; 1<=s<n) with the exact error kind and payload; inputs are built by construction (square roots mod p, x+p, twist and different-b points, every tag byte, every length).",
          "Trusts the self-checked arithmetic oracle (G on curve, n*G=O, constants equal corpus/curves.json).",
          "DESIGN.md section 4 C09", "hv"),
- "C10": ("exhaustive sweep of the 14 small-order X25519 encodings x roles x modes x KDF x AEAD x API + generated near-miss negatives, decided by the harness's own RFC 7748 ladder",
+ "C10": ("exhaustive sweep of the 14 small-order X25519 encodings x roles x modes x KDF x AEAD x API + generated near-miss negatives, integer aliases, bit neighbours, keys constructed for degenerate-shaped DH results and special private scalars, decided by the harness's own RFC 7748 ladder",
          "Every small-order encoding in every role must abort setup with EncapError/DecapError on every entry point; generated keys that are not of small order must never be rejected.",
          "Trusts the ladder, self-checked against RFC 7748 vectors at start-up.",
          "DESIGN.md section 4 C10", "hv"),
- "C12": ("round-trip property testing of the 16 serialisable types + exhaustive length sweeps for from_bytes and write_exact (panic observed under catch_unwind)",
+ "C12": ("round-trip and pair-equality (== iff equal serialisation) property testing of the 16 serialisable types + exhaustive length sweeps for from_bytes and write_exact (panic observed under catch_unwind)",
          "Sizes equal the RFC table, library-produced values and accepted byte strings round-trip losslessly and canonically, wrong lengths give IncorrectInputLength(size, len), write_exact panics iff the buffer length differs.",
          "X25519 private keys are compared up to RFC 7748 clamping, as the property states.",
          "DESIGN.md section 4 C12", "hv"),
- "C13": ("robustness property testing: generated malformed and oversized inputs at every byte-consuming entry point under catch_unwind, with debug assertions and overflow checks compiled in; allowed-error-set oracle",
+ "C13": ("robustness property testing: generated malformed and oversized inputs (incl. every length 0..=2100 of each string input and long runs of rejected deliveries) at every byte-consuming entry point under catch_unwind, with debug assertions and overflow checks compiled in; allowed-error-set oracle",
          "No panic, overflow or abort; each entry point fails only with its allowed error kinds (setup_sender: EncapError, setup_receiver: DecapError, open: OpenError/MessageLimitReached, ...). Every ciphertext length 0..=Nt+17 x 36 suites and every key length swept.",
          "Inputs near usize::MAX cannot be allocated; documented caller-side panics (write_exact, export-only seal/open) excluded.",
          "DESIGN.md section 4 C13", "hv"),
